@@ -27,7 +27,7 @@ REQUIRED = ['keeps_direct_seats', 'house_grows_by_adj', 'house_grows_by_adj_of_f
             'level_terminates_lr']
 REQUIRED_COUNTERS = ['overhang_present', 'no_overhang', 'party_outside_tier', 'party_without_votes',
                      'levelling_iterations_ge2', 'by_constituency', 'multistage_wrapped',
-                     'allow', 'level', 'd_hondt', 'sainte_lague', 'hare_lr', 'tie_in_baseline', 'multistage_depth2', 'default_overall', 'apportioned']
+                     'allow', 'level', 'd_hondt', 'sainte_lague', 'hare_lr', 'tie_in_baseline', 'multistage_depth2', 'default_overall', 'apportioned', 'intermediate_tie', 'alabama_lr']
 RULE = ('second-vote dicts over 2-6 parties (tie-forcing small sets, zero-vote parties, up to 10^12, some Fractions); '
         'baseline house sizes 1..30; direct-seat maps with sum <= house size (none, below the share, skewed above it, '
         'random; parties with direct seats but no proportional seat; parties without a votes entry); proportional '
@@ -256,6 +256,7 @@ def _expected_level(evname, votes, n, direct, fuel):
     drop = sum(k for p, k in direct.items() if p not in base)
     tier_overhang = any(direct.get(p, 0) > base[p] for p in tier if not isinstance(p, tuple))
     least = None
+    seq = []
     for e in range(0, fuel + 1):
         h = n + e - drop
         if h < 0:
@@ -266,10 +267,17 @@ def _expected_level(evname, votes, n, direct, fuel):
             if h >= n:
                 raise
             continue
+        seq.append(r)
         if all(r.get(p, 0) >= floors[p] for p in tier):
             least = e
             break
-    return {'base': base, 'floors': floors, 'drop': drop, 'least': least, 'tier_overhang': tier_overhang}
+    # what the house sizes on the way exercise (mechanism tags): a Tie reported at a house size before the final one;
+    # a tier party losing a seat when the house grows by one (Alabama paradox) with no tie involved
+    mid_tie = least is not None and tier_overhang and any(isinstance(k, tuple) for r in seq[:-1] for k in r)
+    alabama = (least is not None and tier_overhang and not any(isinstance(k, tuple) for r in seq for k in r)
+               and any(b.get(p, 0) < a.get(p, 0) for a, b in zip(seq, seq[1:]) for p in tier))
+    return {'base': base, 'floors': floors, 'drop': drop, 'least': least, 'tier_overhang': tier_overhang,
+            'mid_tie': mid_tie, 'alabama': alabama}
 
 
 def _adj_clauses(case, adj, votes, direct):
@@ -716,8 +724,92 @@ def _post_tags(case):
             exp = _expected_level(case['evaluator'], votes, case['n'], direct, case['fuel'])
             if exp['tier_overhang'] and exp['least'] is not None and exp['least'] - exp['drop'] >= 2:
                 t.append('levelling_iterations_ge2')
+            if exp['mid_tie'] and 'tie_in_baseline' not in t:
+                t.append('intermediate_tie')
+            if exp['alabama'] and case['evaluator'] == 'hare_lr':
+                t.append('alabama_lr')
         except _Refused:
             pass
+
+
+def _level_case(op, ev, votes, n, direct, wrap='none', tags=()):
+    c = {'op': op, 'kind': 'level', 'evaluator': ev, 'votes': [[i, num_str(v)] for i, v in enumerate(votes)], 'n': n,
+         'prev': [[i, k] for i, k in enumerate(direct) if k], 'max': [], 'fuel': FUEL, '_tags': ['level', ev] + list(tags)}
+    if op == 'adjusted_eval':
+        c['final'] = ev
+        c['wrap'] = wrap
+        if wrap == 'multistage':
+            c['_tags'].append('multistage_wrapped')
+    return c
+
+
+# known instances (fallbacks so that the counters never depend on luck): an exact tie between two equal parties at an
+# intermediate house size; the Alabama paradox under Hare largest remainder between 6 and 7 seats
+_TIE_FALLBACK = [('d_hondt', [28000, 8000, 8000], 8, [2, 2, 2]), ('sainte_lague', [40000, 12000, 12000], 11, [2, 3, 3]),
+                 ('hare_lr', [9, 2, 17, 5], 9, [0, 0, 1, 2])]
+_ALABAMA_FALLBACK = [('hare_lr', [4080, 2831, 4193, 1440, 3862], 4, [2, 0, 0, 0, 2])]
+
+
+def _directed_intermediate_tie(rng, count):
+    """two parties with equal votes and overhang next to a bigger one: on the way up they tie for a seat"""
+    out = []
+    for ev, vs, n, d in _TIE_FALLBACK:
+        out.append(_level_case(rng.choice(['overhang_calc', 'adjusted_eval']), ev, vs, n, d, tags=['directed']))
+    tries = 0
+    while len(out) < count and tries < 60 * count:
+        tries += 1
+        ev = rng.choice(EVALS)
+        b = rng.choice([1, 2, 3, 5, 8, 1000])
+        m = rng.choice([3, 3, 4])
+        vs = [b * rng.randint(2, 9)] + [b * rng.randint(1, 3)] * 2 + [b * rng.randint(1, 6) for _ in range(m - 3)]
+        n = rng.randint(4, 14)
+        try:
+            base = _bb(ev, {NAMES.n(i): v for i, v in enumerate(vs)}, n)
+        except _Refused:
+            continue
+        if any(isinstance(k, tuple) for k in base) or 1 not in base or 2 not in base:
+            continue
+        d = [rng.randint(0, base.get(0, 0)), base[1] + rng.randint(0, 2), base[2] + rng.randint(1, 2)] + [0] * (m - 3)
+        if sum(d) > n:
+            continue
+        c = _level_case(rng.choice(['overhang_calc', 'adjusted_eval']), ev, vs, n, d,
+                        wrap=rng.choice(['none', 'multistage']), tags=['directed'])
+        exp = _expected_level(ev, _votes(c), n, {i: k for i, k in c['prev']}, FUEL)
+        if exp['mid_tie']:
+            out.append(c)
+    return out
+
+
+def _directed_alabama(rng, count):
+    """Hare largest remainder, 4-5 parties, small house: keep the cases in which a tier party loses a seat while the
+    house grows towards the levelled size"""
+    out = []
+    for ev, vs, n, d in _ALABAMA_FALLBACK:
+        out.append(_level_case(rng.choice(['overhang_calc', 'adjusted_eval']), ev, vs, n, d, tags=['directed']))
+    tries = 0
+    while len(out) < count and tries < 400 * count:
+        tries += 1
+        m = rng.choice([4, 5, 5, 6])
+        vs = [rng.randint(300, 5000) for _ in range(m)]
+        n = rng.randint(3, 9)
+        try:
+            base = _bb('hare_lr', {NAMES.n(i): v for i, v in enumerate(vs)}, n)
+        except _Refused:
+            continue
+        if any(isinstance(k, tuple) for k in base):
+            continue
+        d = [0] * m
+        for i in rng.sample(range(m), 2):
+            if i in base:
+                d[i] = base[i] + rng.randint(1, 2)
+        if sum(d) > n or not any(d):
+            continue
+        c = _level_case(rng.choice(['overhang_calc', 'adjusted_eval']), 'hare_lr', vs, n, d,
+                        wrap=rng.choice(['none', 'multistage']), tags=['directed'])
+        exp = _expected_level('hare_lr', _votes(c), n, {i: k for i, k in c['prev']}, FUEL)
+        if exp['alabama']:
+            out.append(c)
+    return out
 
 
 def generate(rng, tier):
@@ -740,6 +832,8 @@ def generate(rng, tier):
             cases.append(_cty_case(rng, ev=ev))
             cases.append(_cty_case(rng, ev=ev, op='adjusted_eval', wrap='multistage', overall='given'))
             cases.append(_cty_case(rng, ev=ev, overall='none'))
+    cases += _directed_intermediate_tie(rng, 30 if tier == 'quick' else 300)
+    cases += _directed_alabama(rng, 30 if tier == 'quick' else 300)
     if tier == 'thorough':
         # small-scope exhaustive: all vote vectors over {0..3}^2 (n <= 5) and {0..2}^3 (n <= 3), all direct maps with
         # entries <= 2 and sum <= n over the parties and one party without votes, 3 evaluators, allow and level
